@@ -759,6 +759,17 @@ class Runner:
                           f'op #{idx} {o["op"]}({_d(o)}) hit by {w.st.fired}: identity {_s(i)} that the op does not touch changed')
         if pre.did is not None and pre.did not in touched_ids and adopted.did != pre.did and o['op'] != 'set_default_identity':
             self.viol('collateral-damage', o['op'], f'op #{idx} {o["op"]} hit by {w.st.fired}: default identity changed from {_s(pre.did)} to {_s(adopted.did)}')
+        # somebody who does not know of the failure tries to sign with the key the operation was to create
+        probe_cert = None
+        if o['op'] == 'new_key' and o.get('key_id') and not crashed and o.get('probe_between', True):
+            kn0 = Name.normalize(o['_id']) + [enc.Component.from_str('KEY'), enc.Component.from_str(o['key_id'])]
+            if _find_key(adopted, nb(kn0))[1] is None:
+                probe_cert = kn0 + [enc.Component.from_str('self'), enc.Component.from_str('v=1')]
+                try:
+                    self.lib(w.kc.get_signer, {'cert': probe_cert})
+                    w.stats['probe.signer_between_failure_and_repeat'] += 1
+                except Exception:
+                    pass            # refusing is fine: the key is not listed
         # repeat the op without faults
         self.events.append((idx, o['op'], 'faulted', w.st.fired, 'crash' if crashed else 'error'))
         try:
@@ -820,6 +831,23 @@ class Runner:
                     self.viol('key-without-private-key', o['op'],
                               f'{where}; after repeating it ({"refused: " + exc_brief(rep_err) if rep_err else "completed"}) the store '
                               f'lists key {_s(kn)} but its private key does not exist')
+        if probe_cert is not None and rep_err is None:
+            # ... and signs again once the operation has been repeated successfully: with THIS key's private key
+            kn = nb(probe_cert[:-2])
+            rec = _find_key(final, kn)[1]
+            if rec is not None:
+                try:
+                    signer = self.lib(w.kc.get_signer, {'cert': probe_cert})
+                    p = tlvref.parse_data(bytes(enc.make_data('/signed/after/repeat', enc.MetaInfo(), b'x', signer=signer)))
+                    si = tlvref.elements(p.sig_info)
+                    st = tlvref.find(si, tlvref.T_SIG_TYPE)
+                    styp = int.from_bytes(p.sig_info[st[2]:st[3]], 'big')
+                    if not verify_sig(rec['keys'][kn]['bits'], styp, p.signed_portion, p.sig_value):
+                        self.viol('signer-wrong-key', 'after-repeat',
+                                  f'{where}; after repeating it, a signer for key {_s(kn)} signs with a private key that does not '
+                                  f'belong to the public key the store lists (the private key of the failed attempt)')
+                except Exception:
+                    pass
         self.check_views(f'after faulted op #{idx} {o["op"]} and its repetition')
 
     def names_from(self, final, pre, o):
